@@ -7,7 +7,7 @@ From PLV Require Entry.E01 Entry.E02 Entry.E03 Entry.E04 Entry.E05 Entry.E06 Ent
 Import ListNotations.
 Open Scope Z_scope.
 
-Definition dispatch (id : Z) (inp : list Z) : list Z :=
+Definition model_dispatch (id : Z) (inp : list Z) : list Z :=
   match id / 100 with
   | 1 => E01.entry (id mod 100) inp
   | 2 => E02.entry (id mod 100) inp
